@@ -77,7 +77,7 @@ inductive Res where
 inductive Out (α : Type) where
   | val (a : α)
   | panic
-  deriving Repr
+  deriving Repr, DecidableEq
 
 /-- what `Initialize` records into the new status -/
 structure InitObs where
@@ -278,7 +278,7 @@ def worldRSs (w : World) : List RS :=
   | none => []
 
 /-- a user's update admitted through `WorkloadHandler.handleDeployment` (old = the stored object) -/
-def admit (w : World) (d : Dep) (e : Edit) : Out Dep :=
+def submit (w : World) (d : Dep) (e : Edit) : Out Dep :=
   let new := applyEdit d e
   match handleDeployment (toObj new) (toObj d) (worldRollouts w) (worldRSs w) with
   | .panic => .panic
@@ -287,7 +287,7 @@ def admit (w : World) (d : Dep) (e : Edit) : Out Dep :=
 /-! ### walks -/
 
 inductive Call where
-  | initialize | upgradeBatch | finalize | admit
+  | initialize | upgradeBatch | finalize | submit
   deriving Repr, DecidableEq, Inhabited
 
 structure Step where
@@ -309,11 +309,11 @@ def step (c : Cfg) (d : Option Dep) (s : Step) : Out StepOut :=
   | .initialize => planeInitialize c.rel d s.fault
   | .upgradeBatch => planeUpgradeBatch c.rel s.batch d s.fault
   | .finalize => planeFinalize s.bpNil d s.fault
-  | .admit =>
+  | .submit =>
     match d with
     | none => .val { res := .err, dep := none, writes := 0, obs := none }
     | some d =>
-      match admit c.world d s.edit with
+      match submit c.world d s.edit with
       | .panic => .panic
       | .val d' => .val { res := .ok, dep := some d', writes := 0, obs := none }
 
